@@ -48,6 +48,19 @@ type occ struct {
 
 func (o *occ) members() []member { return append([]member{{o.c, o.desc}}, o.more...) }
 
+// usesIJ: does the template read injected data?
+func (o *occ) usesIJ() bool {
+	if o.where == "ij" {
+		return true
+	}
+	for _, m := range o.members() {
+		if strings.Contains(c10.UnparseBody(m.c.Parts), "$ij") {
+			return true
+		}
+	}
+	return false
+}
+
 func (o *occ) feat() string {
 	if len(o.more) > 0 {
 		return "several-messages-in-one-template"
@@ -63,6 +76,8 @@ func (o *occ) wrap(ss []string) string {
 		return "1:" + s + ";2:" + s + ";"
 	case "call":
 		return "[" + s + "]"
+	case "ij":
+		return "iv:" + s
 	}
 	return s
 }
@@ -141,6 +156,13 @@ func renderData(n int) data.Map {
 		"y": data.String("yv"), "y_1": data.String("y1v"), "n": data.Int(n),
 	}
 }
+
+// renderIJ / jsIJ are the injected data of SoyPO.POEnv.
+func renderIJ() data.Map {
+	return data.Map{"who": data.String("iv"), "y": data.String("ijy")}
+}
+
+var jsIJ = map[string]interface{}{"who": "iv", "y": "ijy"}
 
 func jsData(n int) map[string]interface{} {
 	return map[string]interface{}{
@@ -297,6 +319,11 @@ func runGroup(ctx0 *core.Ctx, ctx *reporter, cases []*POCase, locales []string, 
 		case 1:
 			f.Text += c10.Template(fmt.Sprintf("c%d", i), vars, "", fmt.Sprintf(`[{call .m%d data="all"/}]`, i))
 			occs = append(occs, &occ{c: c, where: "call", tmpl: fmt.Sprintf("%s.c%d", ns, i), desc: dTop, file: fi})
+		case 2:
+			// injected data printed outside the message, next to it
+			d := "M|" + c.ID + "|ij"
+			f.Text += c10.Template(fmt.Sprintf("j%d", i), vars, "", "{$ij.who}:"+c10.MsgTag(c.Meaning, d, body))
+			occs = append(occs, &occ{c: c, where: "ij", tmpl: fmt.Sprintf("%s.j%d", ns, i), desc: d, file: fi})
 		}
 	}
 	// several DIFFERENT messages in one template body (and in one loop body):
@@ -530,6 +557,7 @@ func runGroup(ctx0 *core.Ctx, ctx *reporter, cases []*POCase, locales []string, 
 	type job struct {
 		o   *occ
 		cat *catalogue
+		seq int
 	}
 	var mu sync.Mutex
 	renders := 0
@@ -541,9 +569,31 @@ func runGroup(ctx0 *core.Ctx, ctx *reporter, cases []*POCase, locales []string, 
 			defer wg.Done()
 			for j := range jobs {
 				n := 0
-				for _, ex := range j.o.c.Exp {
-					out, err := renderGo(tofu, j.o.tmpl, j.cat, ex.N)
+				for k, ex := range j.o.c.Exp {
+					order := (j.seq + k) % len(CallOrders)
+					if j.cat.bundle == nil && !j.o.usesIJ() && (j.seq+k)%2 == 0 {
+						order = -1 // Tofu.Render
+					}
+					out, err := renderGo(tofu, j.o.tmpl, j.cat, ex.N, order)
 					n++
+					if order > 0 && !renderMatches(j.o, j.cat, ex.N, entries, out, err) {
+						// is it the order of the builder calls?
+						out0, err0 := renderGo(tofu, j.o.tmpl, j.cat, ex.N, 0)
+						n++
+						if renderMatches(j.o, j.cat, ex.N, entries, out0, err0) {
+							errS := ""
+							if err != nil {
+								errS = err.Error()
+							}
+							ctx.Violation(core.Sig{Family: "M2-render", Feature: "renderer-call-order-matters"},
+								fmt.Sprintf("%s [go, %s, catalogue %s, n=%d]: NewRenderer.%s renders %q err=%q, NewRenderer.%s renders %q",
+									c10.UnparseBody(j.o.c.Parts), j.o.where, j.cat.name, ex.N, CallOrders[order], out, errS, CallOrders[0], out0),
+								map[string]interface{}{"case": j.o.c, "where": j.o.where, "template": j.o.tmpl, "file": files[j.o.file], "catalogue": j.cat.name,
+									"n": ex.N, "calls": CallOrders[order], "observed": out, "error": errS, "baseline_calls": CallOrders[0], "baseline": out0})
+							continue
+						}
+						out, err = out0, err0
+					}
 					judgeRender(ctx, "go", j.o, j.cat, ex.N, entries, out, err, files[j.o.file])
 				}
 				mu.Lock()
@@ -552,12 +602,14 @@ func runGroup(ctx0 *core.Ctx, ctx *reporter, cases []*POCase, locales []string, 
 			}
 		}()
 	}
+	seq := int(ctx0.Seed)
 	for _, cat := range cats {
 		for _, o := range occs {
 			if skipRender(ctx0, o, cat) {
 				continue
 			}
-			jobs <- job{o, cat}
+			seq++
+			jobs <- job{o, cat, seq}
 		}
 	}
 	close(jobs)
@@ -703,16 +755,53 @@ func skipRender(ctx0 *core.Ctx, o *occ, cat *catalogue) bool {
 	return ctx0.Thorough() && cat.loc != "" && cat.loc != "en"
 }
 
-func renderGo(tofu *soyhtml.Tofu, tmpl string, cat *catalogue, n int) (out string, err error) {
+// CallOrders are the ways the Renderer's builder calls are combined.  All must
+// render the same: the catalogue and the injected data are independent
+// settings.  Order 0 is the baseline (the order the project's own test helper
+// uses).
+var CallOrders = []string{
+	"Inject.WithMessages",
+	"WithMessages.Inject",
+	"WithMessages.Inject(other).Inject",
+	"WithMessages.Inject.WithMessages",
+	"prepared(WithMessages).Inject-per-request",
+}
+
+func renderGo(tofu *soyhtml.Tofu, tmpl string, cat *catalogue, n int, order int) (out string, err error) {
 	defer func() {
 		if r := recover(); r != nil {
 			err = fmt.Errorf("PANIC in render: %v", r)
 		}
 	}()
 	var buf bytes.Buffer
+	ij := renderIJ()
+	other := data.Map{"who": data.String("WRONG"), "y": data.String("WRONG")}
+	with := func(r *soyhtml.Renderer) *soyhtml.Renderer {
+		if cat.bundle != nil {
+			return r.WithMessages(cat.bundle)
+		}
+		return r
+	}
 	r := tofu.NewRenderer(tmpl)
-	if cat.bundle != nil {
-		r = r.WithMessages(cat.bundle)
+	switch order {
+	case -1: // the other entry point: no catalogue, no injected data
+		err = tofu.Render(&buf, tmpl, renderData(n))
+		return buf.String(), err
+	case 1:
+		r = with(r).Inject(ij)
+	case 2:
+		r = with(r).Inject(other).Inject(ij)
+	case 3:
+		r = with(with(r).Inject(ij))
+	case 4:
+		prepared := with(r)
+		var first bytes.Buffer
+		if e := prepared.Inject(ij).Execute(&first, renderData(n)); e != nil {
+			return first.String(), e
+		}
+		r = prepared.Inject(ij) // a second request on the prepared renderer
+	default:
+		r = with(r.Inject(ij))
 	}
 	err = r.Execute(&buf, renderData(n))
 	return buf.String(), err
@@ -754,6 +843,19 @@ func expected(c *POCase, cat *catalogue, n int, e *poEntry) (Outcome, string) {
 		}
 	}
 	return Outcome{T: "unspec"}, st
+}
+
+// renderMatches: is the rendering what the spec demands (or not judged)?
+func renderMatches(o *occ, cat *catalogue, n int, entries map[string]*poEntry, out string, rerr error) bool {
+	var parts []string
+	for _, m := range o.members() {
+		exp, _ := expected(m.c, cat, n, entries[m.desc])
+		if exp.T != "out" {
+			return true // judged (or not) by judgeRender
+		}
+		parts = append(parts, exp.S)
+	}
+	return rerr == nil && out == o.wrap(parts)
 }
 
 func judgeRender(ctx *reporter, backend string, o *occ, cat *catalogue, n int, entries map[string]*poEntry, out string, rerr error, f core.File) {
@@ -854,6 +956,7 @@ func entryText(cat *catalogue, e *poEntry) string {
 type jsRender struct {
 	Tmpl string                 `json:"tmpl"`
 	Data map[string]interface{} `json:"data"`
+	IJ   map[string]interface{} `json:"ij"`
 }
 type jsJob struct {
 	ID      string     `json:"id"`
@@ -898,7 +1001,7 @@ func renderJS(ctx *reporter, work string, reg *template.Registry, cats []*catalo
 				continue
 			}
 			for _, ex := range o.c.Exp {
-				job.Renders = append(job.Renders, jsRender{Tmpl: o.tmpl, Data: jsData(ex.N)})
+				job.Renders = append(job.Renders, jsRender{Tmpl: o.tmpl, Data: jsData(ex.N), IJ: jsIJ})
 				refs[cat.name] = append(refs[cat.name], ref{o, ex.N})
 			}
 		}
